@@ -17,6 +17,7 @@ from pyvc.contract import ContractSet, LoopSpec
 from pyvc.vals import *       # noqa
 from pyvc import extract
 from . import common
+from .common import emit, events_named
 
 CV = "mpf/core/config_validator.py"
 UTIL = "mpf/core/utility_functions.py"
@@ -179,6 +180,17 @@ def build():
          raises={"ValueError": "secs_rejects(time_string)"},
          modifies=[], allow_decorators=["staticmethod"],
          call_ensures=[], replay_seeds={"time_string": ["-1", "2", "+3", "1.5s", "100ms", "-2.5"]})
+
+    # ---- list normalisation of non-string items (the split of real strings is not modelled)
+    for fn_ in ("string_to_list", "string_to_event_list"):
+        C.fn("Util." + fn_, params=dict(string=Union(NoneT, Bool, Int, Real, Const(""), Seq(Int))),
+             ensures=[("SL1: a provided scalar - the numbers 0 and 0.0 and False included - becomes a one-element list "
+                       "holding exactly it (a list-typed key written as a single value keeps that value)",
+                       "implies(is_num(string) or is_bool(string), len(result) == 1 and result[0] == string)"),
+                      ("SL2: only None and the empty string mean 'nothing': the empty list", "implies(string is None or "
+                       "(is_str(string) and string == ''), len(result) == 0)"),
+                      ("SL3: a list is passed through as it is", "implies(is_container(string), result is string)")],
+             modifies=[], raises={}, allow_decorators=["staticmethod"], call_ensures=[])
 
     # ---- the validators
     C.cls("Logger", fields=dict(name=Str))
@@ -450,5 +462,55 @@ def show_token_set():
     return C
 
 
+def mode_spec_set():
+    """ConfigValidator.load_mode_config_spec: which spec a mode's mode_settings section is validated against"""
+    C = ContractSet("C12m", "a mode's own mode_settings spec is registered as declared")
+    # ---- a mode's own mode_settings spec is registered as declared (nothing merged in)
+    def cv_spec(I, name):
+        generic = I.new_dict((("__allow_others__", VStr("")), ("generic_key", VOpaque("SpecEntry", z3.Const(
+            "generic_entry", usort("SpecEntry"))))))
+        k = I.ctx.fork(3)
+        if k == 0:
+            return I.new_dict((("mode_settings", generic),))
+        if k == 1:
+            return I.new_dict((("mode_settings", generic), ("_mode_settings", I.new_dict(()))))
+        other = I.new_dict((("declared_key", VOpaque("SpecEntry", z3.Const("old_entry", usort("SpecEntry")))),))
+        return I.new_dict((("mode_settings", generic), ("_mode_settings", I.new_dict((("other_mode", other),)))))
+    C.cls("ConfigValidator", file=CV, fields=dict(config_spec=Init(cv_spec)))
+
+    def process_spec(I, a, k):
+        emit(I, "process_spec", spec=a[0], mode=a[1])
+        return I.new_dict((("declared_key", VOpaque("SpecEntry", z3.Const("declared_entry", usort("SpecEntry")))),))
+    C.globals["ConfigSpecLoader"] = VFn("module", name="ConfigSpecLoader")
+    C.globals["ConfigSpecLoader.process_config_spec"] = VFn("model", model=process_spec)
+    C.globals["YamlInterface"] = VFn("module", name="YamlInterface")
+    C.globals["YamlInterface.process"] = VFn("model", model=lambda I, a, k: I.new_dict((("from_yaml", a[0]),)))
+
+    def mode_spec_registered(I, mode_string):
+        this = I.frames[0].env["self"].ref
+        top = I.container(I.force(I.read_field(this, "config_spec")).ref)
+        ms = top.get("_mode_settings")
+        if ms is None:
+            return VBool(False)
+        cur = I.container(I.force(ms).ref).get(I.force(mode_string))
+        if cur is None and isinstance(I.pyconst(I.force(mode_string)), str):
+            cur = I.container(I.force(ms).ref).get(I.pyconst(I.force(mode_string)))
+        evs = events_named(I, "process_spec")
+        if cur is None or len(evs) != 1:
+            return VBool(False)
+        ent = I.container(I.force(cur).ref).entries
+        return VBool(z3.And(z3.BoolVal([k_ for k_, _ in ent] == ["declared_key"]), I.eq(evs[0].args["mode"], mode_string)))
+    C.helpers["mode_spec_registered"] = mode_spec_registered
+    C.trace_helpers = {"mode_spec_registered"}
+    C.fn("ConfigValidator.load_mode_config_spec",
+         params=dict(mode_string=Const("new_mode"), config_spec=Union(MapS(Str, Int), Str)),
+         ensures=[("MS1: the spec registered for a mode's mode_settings is EXACTLY what the mode declared (processed): "
+                   "nothing from the generic section - in particular not its __allow_others__ marker, which would make "
+                   "every unknown or misspelled key valid - is merged in", "mode_spec_registered(mode_string)")],
+         modifies=["self.config_spec.**", "self.config_spec"], raises={})
+
+    return C
+
+
 def build_extra():
-    return [show_token_set()]
+    return [show_token_set(), mode_spec_set()]
